@@ -25,6 +25,7 @@ struct Task {
     /// the command's exit status is not the agent's (pipeline)
     status_masked: bool,
     ins: Vec<String>,
+    pool: Option<usize>,
 }
 
 const SIZES: [usize; 12] = [0, 1, 2, 100, 4095, 4096, 4097, 8192, 65535, 65536, 65537, 200_000];
@@ -41,7 +42,11 @@ fn gen_tasks(t: &mut Tape, logdir: &str, big: bool) -> Vec<Task> {
             let len = if big && t.chance(35) { SIZES[t.below(SIZES.len())] } else { t.below(300) };
             plan.push(format!("{}:{}", fd, len));
         }
+        if t.chance(60) {
+            plan.insert(t.below(plan.len() + 1), format!("0:{}", 5 + t.below(60)));
+        }
         let plan = plan.join(",");
+        let pool = if t.chance(35) { Some(t.below(2)) } else { None };
         let (mut code, mut signal) = (0, None);
         match t.weighted(&[12, 4, 2]) {
             1 => code = [1, 2, 3, 42, 126, 127, 128, 130, 255][t.below(9)],
@@ -94,17 +99,25 @@ fn gen_tasks(t: &mut Tape, logdir: &str, big: bool) -> Vec<Task> {
             // the shell itself must die from the signal: a child killing only itself is an ordinary exit status
             cmd = format!("{} ; kill -{} $$", cmd, sig);
         }
-        tasks.push(Task { id, plan, code, signal, out, rsp, cmd, stdout_hidden, status_masked, ins });
+        tasks.push(Task { id, plan, code, signal, out, rsp, cmd, stdout_hidden, status_masked, ins, pool });
     }
     tasks
 }
 
+const POOL_DEPTHS: [usize; 2] = [1, 2];
+
 fn render(tasks: &[Task]) -> String {
     let mut m = String::new();
+    for (i, d) in POOL_DEPTHS.iter().enumerate() {
+        m += &format!("pool pl{}\n  depth = {}\n", i, d);
+    }
     for t in tasks {
         m += &format!("rule r{}\n  command = {}\n  description = T{}\n", t.id, ninja_escape_value(&t.cmd), t.id);
         if let Some((p, c)) = &t.rsp {
             m += &format!("  rspfile = {}\n  rspfile_content = {}\n", p, c);
+        }
+        if let Some(p) = t.pool {
+            m += &format!("  pool = pl{}\n", p);
         }
         m += &format!("build {}: r{}", crate::sim::model::esc(&t.out), t.id);
         for i in &t.ins {
@@ -155,7 +168,7 @@ fn parse_records(out: &[u8]) -> Result<Vec<(usize, usize, usize, usize, usize)>,
 pub struct C16;
 
 impl C16 {
-    fn run_case(&self, case: &Case, env: &Env) -> CaseOut {
+    pub fn run_case(&self, case: &Case, env: &Env) -> CaseOut {
         let dir = env.dir.join("bb");
         util::fresh_cwd(&dir);
         let logdir = dir.join("agentlog");
@@ -229,7 +242,7 @@ impl C16 {
             Ok(recs) => {
                 for t in &tasks {
                     let plan = parse_plan(&t.plan);
-                    let expect: Vec<(usize, usize, Vec<u8>)> = plan.iter().enumerate().filter(|(_, (fd, _))| !(t.stdout_hidden && *fd == 1)).map(|(seq, (fd, len))| (*fd, seq, record(t.id, *fd, seq, *len, seq + 1 == plan.len()))).collect();
+                    let expect: Vec<(usize, usize, Vec<u8>)> = plan.iter().enumerate().filter(|(_, (fd, _))| *fd != 0 && !(t.stdout_hidden && *fd == 1)).map(|(seq, (fd, len))| (*fd, seq, record(t.id, *fd, seq, *len, seq + 1 == plan.len()))).collect();
                     let mine: Vec<(usize, &(usize, usize, usize, usize, usize))> = recs.iter().enumerate().filter(|(_, r)| r.0 == t.id).collect();
                     if mine.len() != expect.len() {
                         v("record-count", format!("task {} wrote {} records, n2 shows {} of them (plan {}, {} bytes of stdout)", t.id, expect.len(), mine.len(), t.plan, stdout.len()));
@@ -306,10 +319,50 @@ impl C16 {
                 v("output-missing", format!("task {} succeeded but its output {} is missing", t.id, t.out));
             }
         }
-        let total: usize = tasks.iter().map(|t| parse_plan(&t.plan).iter().map(|p| p.1).sum::<usize>()).sum();
-        let heavy = tasks.iter().filter(|t| parse_plan(&t.plan).iter().map(|p| p.1).sum::<usize>() >= 4096).count();
+        // ---- C04 on the real binary: the commands' own timestamps bracket a part of their lifetime, so measured
+        // overlap is a lower bound of the true overlap
+        let mut spans: Vec<(u64, u64, Option<usize>)> = vec![];
+        for t in &tasks {
+            let st: Option<u64> = std::fs::read(logdir.join(format!("{}.json", t.id))).ok().and_then(|b| serde_json::from_slice::<Value>(&b).ok()).and_then(|l| l["start_ns"].as_u64());
+            let en: Option<u64> = std::fs::read_to_string(logdir.join(format!("{}.end", t.id))).ok().and_then(|s| s.trim().parse().ok());
+            if let (Some(s), Some(e)) = (st, en) {
+                spans.push((s, e, t.pool));
+            }
+        }
+        let overlap = |sel: &dyn Fn(&(u64, u64, Option<usize>)) -> bool| -> usize {
+            let mut ev: Vec<(u64, i32)> = vec![];
+            for sp in spans.iter().filter(|s| sel(s)) {
+                ev.push((sp.0, 1));
+                ev.push((sp.1, -1));
+            }
+            ev.sort();
+            let (mut cur, mut max) = (0i32, 0i32);
+            for (_, d) in ev {
+                cur += d;
+                max = max.max(cur);
+            }
+            max as usize
+        };
+        let all = overlap(&|_| true);
+        if all > j {
+            out.viols.push(Viol::new("C04", "bb:j-exceeded", format!("{} commands were running at the same time with -j {}", all, j)));
+        }
+        for (i, d) in POOL_DEPTHS.iter().enumerate() {
+            let o = overlap(&|s| s.2 == Some(i));
+            if o > *d {
+                out.viols.push(Viol::new("C04", "bb:pool-exceeded", format!("{} commands of pool pl{} (depth {}) were running at the same time", o, i, d)));
+            }
+        }
+        let total: usize = tasks.iter().map(|t| parse_plan(&t.plan).iter().filter(|p| p.0 != 0).map(|p| p.1).sum::<usize>()).sum();
+        let heavy = tasks.iter().filter(|t| parse_plan(&t.plan).iter().filter(|p| p.0 != 0).map(|p| p.1).sum::<usize>() >= 4096).count();
+        if all >= 2 {
+            out.classes.push("overlapping-commands".into());
+        }
+        if all == j && j >= 2 {
+            out.classes.push("j-reached".into());
+        }
         out.nontrivial = (heavy >= 2 && j >= 2) || !failing.is_empty();
-        out.classes = vec![format!("j{}", j)];
+        out.classes.push(format!("j{}", j));
         if heavy >= 2 {
             out.classes.push("two-tasks-over-4KiB".into());
         }
